@@ -196,24 +196,33 @@ func (b *Box) maybeGC() {
 
 	verifYield("maybeGC:after-mark")
 
-	b.sweep(topics2Delete)
+	b.sweep(topics2Delete, now, epochsAfterWhichWeGC)
 }
 
-func (b *Box) sweep(topics2Delete []string) {
+func (b *Box) sweep(topics2Delete []string, now uint64, epochsAfterWhichWeGC time.Duration) {
 	b.lock.Lock()
 	defer b.lock.Unlock()
 
 	for _, topic := range topics2Delete {
+		// A topic may have been used after it was marked, hence its age is checked again now that nothing can change
+
 		messages, exists := b.pendingMessages[topic]
-		if exists {
+		if exists && pendingExpired(messages, now, epochsAfterWhichWeGC) {
 			for _, sender := range messages.senders() {
 				delete(b.totalInFlightTopicsBySender[sender], topic)
 			}
+			delete(b.pendingMessages, topic)
 		}
-		delete(b.pendingMessages, topic)
-		delete(b.startedSending, topic)
 
+		if lastSent, started := b.startedSending[topic]; started && time.Duration(now-lastSent) > epochsAfterWhichWeGC {
+			delete(b.startedSending, topic)
+		}
 	}
+}
+
+func pendingExpired(messages *storedMessages, now uint64, epochsAfterWhichWeGC time.Duration) bool {
+	lastUsed := messages.lastUsedEpoch()
+	return now > lastUsed && time.Duration(now-lastUsed) > epochsAfterWhichWeGC
 }
 
 func (b *Box) mark(now uint64, epochsAfterWhichWeGC time.Duration) []string {
@@ -223,7 +232,7 @@ func (b *Box) mark(now uint64, epochsAfterWhichWeGC time.Duration) []string {
 	defer b.lock.RUnlock()
 
 	for topic, messages := range b.pendingMessages {
-		if lastUsed := messages.lastUsedEpoch(); now > lastUsed && time.Duration(now-lastUsed) > epochsAfterWhichWeGC {
+		if pendingExpired(messages, now, epochsAfterWhichWeGC) {
 			topics2Delete = append(topics2Delete, topic)
 		}
 	}
